@@ -9,6 +9,9 @@ CONSTANTS
   MaxOps = 12
   MaxRetry = 1
   Stale = TRUE
+  Outcomes = {"sent"}
+  MppRetry = {0}
+  Bug = "none"
 CONSTRAINT Bound
 VIEW View
 INVARIANT NeverBoth
